@@ -139,11 +139,58 @@ def build_harness():
     return rc, out
 
 
+def run_sm_programs(seed, n, out):
+    """area `sm` (C19): generate a program of n macro declarations, compile it with the REAL proc-macro, run it"""
+    smdir = os.path.join(ROOT, "harness-sm")
+    rc, o = sh([sys.executable, os.path.join(ROOT, "tools", "gen_sm.py"), str(seed), str(n), smdir])
+    if rc != 0:
+        return "gen_sm.py failed: " + o[-1500:]
+    lock = os.path.join(smdir, "Cargo.lock")
+    if not os.path.exists(lock):
+        shutil.copy(os.path.join(REPO, "Cargo.lock"), lock)
+    with Lock():
+        rc, o = sh(["cargo", "build", "--offline"], cwd=smdir, timeout=3600)
+    if rc != 0:
+        errs = [l for l in o.split("\n") if l.startswith("error")][:8]
+        return "the generated static-metric program (seed %s, %s declarations) does not compile against /repo: %s" % (seed, n, "; ".join(errs))
+    rc, o = sh([os.path.join(smdir, "target", "debug", "pv-sm")], timeout=1800)
+    if rc != 0:
+        return "the generated static-metric program exited %d: %s" % (rc, o[-1500:])
+    rows = [l.split("\t") for l in o.split("\n") if l.startswith("sm ")]
+    with open(os.path.join(out, "sm.req"), "w") as fr, open(os.path.join(out, "sm.impl"), "w") as fi, open(os.path.join(out, "sm.oracle"), "w") as fo:
+        nfail = 0
+        distinct = set()
+        nontrivial = set()
+        hits = {}
+        for k, r in enumerate(rows):
+            fr.write("case\n%s\n" % r[0])
+            fi.write("case\n%s\n" % r[1])
+            distinct.add(r[0])
+            acc = re.search(r"acc=(\w+)", r[0]).group(1)
+            hits["acc:" + acc] = hits.get("acc:" + acc, 0) + 1
+            hits["result:" + r[1].split(" ")[0]] = hits.get("result:" + r[1].split(" ")[0], 0) + 1
+            if r[0].count(";") >= 1:
+                nontrivial.add(r[0])
+            if len(r) < 3 or r[1] != r[2]:
+                nfail += 1
+                fo.write(json.dumps({"case": k, "corpus": False, "class": "accessor-addresses-wrong-child",
+                                     "detail": "the generated code updated %s, the declaration says %s; %s" % (r[1], r[2] if len(r) > 2 else "?", r[0]), "lines": [r[0]]}) + "\n")
+    json.dump(dict(area="sm", seed=seed, cases=len(rows), corpus_cases=0, request_lines=len(rows), distinct=len(distinct), distinct_nontrivial=len(nontrivial),
+                   oracle_failures=nfail, hits=dict(hits, programs=1, declarations=n), samples=[[r[0]] for r in rows[:3]]), open(os.path.join(out, "sm.stats.json"), "w"))
+    return None
+
+
 def run_area(area, seed, n, tier, work, tag="", mask=None, classes=None, oracle_prefixes=None):
     out = os.path.join(work, "run" + tag)
     os.makedirs(out, exist_ok=True)
     exe = os.path.join(HARNESS, "target", "debug", "pv-harness")
-    rc, o = sh([exe, "run", area, "--seed", str(seed), "--n", str(n), "--out", out, "--tier", tier], timeout=7200)
+    if area == "sm":
+        err = run_sm_programs(seed, n, out)
+        if err:
+            return dict(error=err)
+        rc, o = 0, ""
+    else:
+        rc, o = sh([exe, "run", area, "--seed", str(seed), "--n", str(n), "--out", out, "--tier", tier], timeout=7200)
     if rc != 0:
         return dict(error="pv-harness exited %d: %s" % (rc, o[-2000:]))
     req = os.path.join(out, area + ".req")
@@ -212,7 +259,7 @@ def replay_fails(area, lines, work):
 def shrink(area, lines, cls, work):
     """greedy one-line-at-a-time minimisation keeping the same oracle failure class"""
     lines = list(lines)
-    if len(lines) <= 1 or len(lines) > 400:
+    if area == "sm" or len(lines) <= 1 or len(lines) > 400:
         return lines
     changed = True
     budget = 300
